@@ -403,3 +403,73 @@ def c06_10(ctx, r):
     from .c18 import submit_returns
 
     submit_returns(ctx, r, "C06.10")
+
+
+@rule(P, "C06.11", "T9", "an active batch id is a string from sbatch to job_status.json and back to the squeue lookup", min_obligations=3)
+def c06_11(ctx, r):
+    """Carried batches are counted against max-nodes only if the id persisted by one round finds its row in the next round's status table.
+    The table is keyed by the strings squeue prints; the id comes from sbatch's output as a string; in between it lives in job_status.json,
+    where the model's element type decides what a numeric id is coerced to on load.  Types along that chain, from the source:
+      JobStatus.hpc_job_ids : list of str (exactly - a Union admitting int coerces "4001" to 4001 and the lookup then misses);
+      the status table key  : a piece of the output text (split / regex group), not converted;
+      the submitted id      : a piece of sbatch's output text, not converted."""
+    js = ctx.cls("JobStatus", "C06.11")
+    t = ctx.ty.attr_type(js, "hpc_job_ids")
+    r.check(t == ("list", ("ext", "str")), "JobStatus.hpc_job_ids is a list of str", key_of_cls(js, f"hpc_job_ids element type {t[1] if t and len(t) > 1 else t}"), f"{js.module.relpath}:{js.node.lineno}",
+            f"JobStatus.hpc_job_ids is declared as {ctx.src(js.ann_fields['hpc_job_ids']) if 'hpc_job_ids' in js.ann_fields else t}: ids read back from job_status.json are no longer (only) strings, so a carried batch's id misses the "
+            "squeue status table (keyed by the printed strings), the batch counts as gone and the round submits max-nodes more", "the number of this submission's batches queued or running on the HPC is at most max-nodes")
+    base = ctx.cls("HpcManagerInterface", "C06.11")
+    n = 0
+    for sub in ctx.ix.subclasses(base):
+        if sub.name != "SlurmManager" and sub.name != "PbsManager":
+            continue
+        for m in sub.methods.values():
+            # the table: subscript stores keyed by a local in a function that splits the command output
+            for st in iter_own(m.node):
+                if isinstance(st, ast.Assign) and len(st.targets) == 1 and isinstance(st.targets[0], ast.Subscript) and isinstance(st.targets[0].value, ast.Name) and "status" in st.targets[0].value.id.lower():
+                    key = st.targets[0].slice
+                    nodes = ctx.nodes_of(m, st)
+                    if not nodes:
+                        continue
+                    txt = inlined_expr(ctx, m, key)
+                    conv = [c for c in ast.walk(txt) if isinstance(c, ast.Call) and isinstance(c.func, ast.Name) and c.func.id in ("int", "float")]
+                    n += 1
+                    r.check(not conv, f"{sub.name}.{m.name}: the status table key is the printed text", key_of(m, "status table key converted"), m.loc(st),
+                            f"`{ctx.src(st)}`: the key `{ctx.src(txt)}` is converted to a number while the persisted ids are strings - every lookup misses", "at most max-nodes")
+    if n < 1:
+        raise AnalysisError("C06.11", "no status table store recognised in the SLURM/PBS managers")
+    sm = ctx.fn("SlurmManager.submit", "C06.11")
+    rets = [x for x in iter_own(sm.node) if isinstance(x, ast.Return) and isinstance(x.value, ast.Tuple) and len(x.value.elts) == 3]
+    if not rets:
+        raise AnalysisError("C06.11", "SlurmManager.submit returns no (result, job_id, err) tuple")
+    for x in rets:
+        e = inlined_expr(ctx, sm, x.value.elts[1])
+        conv = [c for c in ast.walk(e) if isinstance(c, ast.Call) and isinstance(c.func, ast.Name) and c.func.id in ("int", "float")]
+        r.check(not conv, "SlurmManager.submit returns the id as printed", key_of(sm, "submitted id converted"), sm.loc(x), f"`{ctx.src(e)}` converts the id sbatch printed to a number; the status table is keyed by strings", "at most max-nodes")
+
+
+def key_of_cls(cls, what):
+    return f"{cls.name}::{what}"
+
+
+@rule(P, "C06.12", "T6", "the persisted list of active batch ids is changed only by a round's status update and by a batch reporting its own end", min_obligations=2)
+def c06_12(ctx, r):
+    """max-nodes is enforced per round from the ids carried in job_status.json.  An id may leave that list only because the scheduler no longer
+    lists the batch (the round's status update replaces the list by the ids still outstanding) or because the batch itself reports its end
+    (complete_hpc_job_id).  Any other writer - clearing the list when the submission is marked complete, say - forgets batches that are still
+    running their teardown; a resubmission then starts max-nodes new batches beside them."""
+    from .c09 import OWNERS
+
+    allowed = OWNERS[("JobStatus", "hpc_job_ids")]
+    n = 0
+    for fn, node, attr, t, kind in attr_stores(ctx, {"hpc_job_ids"}):
+        if t is None:
+            raise AnalysisError("C06.12", f"{fn.loc(node)}: store to .hpc_job_ids on an untyped receiver")
+        if not type_is(ctx, t, "JobStatus"):
+            continue
+        n += 1
+        r.check(fn.short in allowed, f"JobStatus.hpc_job_ids written in {fn.short}", key_of(fn, f"{kind} JobStatus.hpc_job_ids"), fn.loc(node),
+                f"{fn.short} changes the persisted list of active batch ids ({kind}); only {list(allowed)} may: a batch still queued or running is forgotten, and the next round (or a resubmission) "
+                "submits max-nodes batches beside it", "the number of this submission's batches queued or running on the HPC is at most max-nodes", writer=fn.short)
+    if n < 2:
+        raise AnalysisError("C06.12", f"{n} writers of JobStatus.hpc_job_ids found")
